@@ -263,6 +263,45 @@ def c07Clauses (i : CsrInputs) (info : Bytes) : List String :=
       | _ => ["C07:exactly-one-extension-request"]
      else clause "C07:no-unrequested-attribute" rest.isEmpty)
 
+/-- the seven purposes rcgen can carry over from a request -/
+def standardEkuOids : List (List Nat) :=
+  [[2, 5, 29, 37, 0], [1, 3, 6, 1, 5, 5, 7, 3, 1], [1, 3, 6, 1, 5, 5, 7, 3, 2],
+   [1, 3, 6, 1, 5, 5, 7, 3, 3], [1, 3, 6, 1, 5, 5, 7, 3, 4], [1, 3, 6, 1, 5, 5, 7, 3, 8],
+   [1, 3, 6, 1, 5, 5, 7, 3, 9]]
+
+def sameSet [DecidableEq α] (a b : List α) : Bool := a.all (b.contains ·) && b.all (a.contains ·)
+
+/-- C06, issuance part, read off the two artefacts alone (no parameters, no model): the
+    certificate issued from an accepted request carries the request's subject, SANs, key usages
+    and extended key usages, and a request asking for anything else must not have been
+    accepted.  `csr` is the whole request, `certTbs` the issued to-be-signed certificate. -/
+def c06IssueClauses (csr certTbs : Bytes) : List String :=
+  match splitSigned csr with
+  | none => ["C06:request-outer-structure"]
+  | some (info, _, _) =>
+    match decodeCsrInfo info, decodeTbsCert certTbs with
+    | some r, some c =>
+      let reqExts : Option (List Ext) :=
+        match r.attrs.filter (fun a => a.oid == oidExtensionRequest) with
+        | [] => some []
+        | a :: _ => decodeExtensionRequest a.values
+      (match reqExts with
+       | none => ["C06:extension-request-decodes"]
+       | some rx =>
+         let val := fun (l : List Ext) (o : List Nat) => (l.filter (fun e => e.oid == o)).map (·.value)
+         let ekuOf := fun (l : List Ext) => (val l oidEku).flatMap (fun v => match v with
+           | .eku oids => oids
+           | _ => [])
+         clause "C06:issued-subject-equals-requested" (c.subject == r.subject) ++
+         clause "C06:issued-san-equals-requested" (val c.exts oidSan == val rx oidSan) ++
+         clause "C06:issued-key-usage-equals-requested" (val c.exts oidKeyUsage == val rx oidKeyUsage) ++
+         clause "C06:issued-eku-equals-requested" (sameSet (ekuOf c.exts) (ekuOf rx)) ++
+         clause "C06:unsupported-request-accepted"
+           (rx.all (fun e => e.oid == oidSan || e.oid == oidKeyUsage || e.oid == oidEku) &&
+            (ekuOf rx).all (standardEkuOids.contains ·)))
+    | none, _ => ["C06:request-decodes"]
+    | _, none => ["C06:issued-certificate-decodes"]
+
 /-! ### CRL -/
 
 structure CrlInputs where
